@@ -15,11 +15,11 @@ import (
 )
 
 type OpInfo struct {
-	Names   []string          // opcode constant names ordered by value
-	Val     map[string]int64  // name -> value
-	ByVal   map[int64]string  // value -> name
-	Widths  map[string][]int  // name -> operand widths (from OpcodeOperands)
-	HasName map[string]bool   // keys of OpcodeNames
+	Names   []string         // opcode constant names ordered by value
+	Val     map[string]int64 // name -> value
+	ByVal   map[int64]string // value -> name
+	Widths  map[string][]int // name -> operand widths (from OpcodeOperands)
+	HasName map[string]bool  // keys of OpcodeNames
 	Decl    *ast.GenDecl
 	err     string
 }
